@@ -448,6 +448,48 @@ def _check_tag_selection(shape, res, tname, tag, tagged):
     res.transitions += 1
     if canon.canon_cfg(cfg) != canon.canon_cfg(twin):
       res.violation('C15/tag-replace', f'{case}: {cfg!r} vs {twin!r}', case)
+    # a tag selection object that is kept while the graph changes: a node
+    # attached afterwards is seen, a detached one is not touched
+    def expected_values(root):
+      out = []
+      for n in buildables(root):
+        params = n.__signature_info__.signature.parameters
+        for arg, tags in n.__argument_tags__.items():
+          if any(issubclass(t, tag) for t in tags):
+            if arg in n.__arguments__:
+              out.append(n.__arguments__[arg])
+            elif params[arg].default is not params[arg].empty:
+              out.append(params[arg].default)
+            else:
+              out.append(fdl.NO_VALUE)
+      return out
+    cfg = make(shape, tagged=tagged)
+    sel = selectors.select(cfg, tag=tag, check_nonempty=False)
+    list(sel)
+    detached = cfg.__arguments__.get('y')
+    attached = fdl.Config(N.node_b, x='ATTACHED')
+    fdl.add_tag(attached, 'x', N.TagB)
+    fdl.add_tag(attached, 'y', N.TagC)
+    cfg.y = [attached]
+    exp2 = expected_values(cfg)
+    got2 = list(sel)
+    res.transitions += 1
+    if sorted(map(key, got2)) != sorted(map(key, exp2)):
+      res.violation('C15/tag-iterate-values/kept-selection-after-attaching',
+                    f'{case}: yielded {got2!r} expected {exp2!r}', case)
+      continue
+    before_detached = canon.canon_cfg(detached) if isinstance(
+        detached, fdl.Buildable) else None
+    sel.replace('R2')
+    if any(v != 'R2' for v in list(sel)):   # (the replace may detach nodes)
+      res.violation('C15/tag-replace/kept-selection-after-attaching',
+                    f'{case}: {cfg!r}', case)
+      continue
+    if before_detached is not None and not any(
+        detached is n for n in buildables(cfg)) and canon.canon_cfg(
+            detached) != before_detached:
+      res.violation('C15/tag-replace/detached-node-overwritten',
+                    f'{case}: {detached!r}', case)
 
 
 def run_unit(unit, tier, seed):
